@@ -126,7 +126,7 @@ def run(ctx: common.Ctx):
     # creation with run-time shapes): with symbolic / unknown dims the library must export the size-independent terms of
     # Model/TGraphScatter.lean, whose theorems (C08MaskGraph, C09Scatter, C12Nonzero, C10Cumsum, …) hold at every shape
     from .. import scattertie
-    scattertie.run(ctx, 110 if ctx.tier == "quick" else 3000, styles=("symbolic", "none"), label="scatter-symbolic")
+    scattertie.run(ctx, 110 if ctx.tier == "quick" else 1000, styles=("symbolic", "none"), label="scatter-symbolic")
 
 
 def report_sized(ctx, recs):
